@@ -1064,6 +1064,9 @@ class Evaluator:
             if m:
                 t = subst_types(t, m)
                 rv = subst_types(rv, m)
+            if t == ['eps'] and hf.get('kind') == 'AssocFn' and hf.get('ctx') == 'inherent_impl' and hf.get('vis') not in ('Public', None):
+                # a private accessor of a sink / input wrapper (`fn as_slice(&self) -> &[u8]`): no effect, just its value
+                return (rv, pre)
             return (rv, cat(pre, ['HELPER', tname(f), t]))
         # a crate-private free function that takes neither the output nor the input but has effects of its own
         # (allocation, ownership transfers, unsafe operations, panics): part of its caller for every path rule
@@ -1090,6 +1093,9 @@ class Evaluator:
                 return (v2, pre)
             # a private constructor (`fn new(bytes) -> Self { Self { bytes, position: 0 } }`): the value it builds
             if t2 == ['eps'] and isinstance(sv2, tuple) and sv2 and sv2[0] == 'adt' and hf.get('kind') == 'AssocFn':
+                return (v2, pre)
+            # a private predicate / observer method without effects (`fn has_remaining(&self) -> bool { self.count < self.slice.len() }`)
+            if t2 == ['eps'] and hf.get('kind') == 'AssocFn' and isinstance(sv2, tuple) and sv2 and sv2[0] in ('bin', 'un', 'lit', 'call'):
                 return (v2, pre)
             if not hasattr(self, '_pure_helpers'):
                 self._pure_helpers = set()
